@@ -15,7 +15,7 @@ CHECKS: dict[str, dict[str, str]] = {
                   'the authenticator, asyncio Lock / Condition as they behave) model-checked with TLC over all interleavings incl. termination under fairness, and '
                   'bound to the code by trace validation of the real machinery observed from outside (Trace_Vault); TLA+ reference of the API retry loop and of '
                   'throttling (Infra.tla) with laws checked by TLC over all fault words; the real api.request / throttled processing run in virtual time, records judged by TLC',
-        text='[+ Vault.tla / MC_Vault: NoReuse, SingleReauth, ReauthOnlyOnRevocation, NoCrash, NoLeak, LockDiscipline for 2-3 requesters x 1-2 keys x revocations x faults x login outcomes (fresh / same / none) x both kinds of credentials, negative variant `bykey`; Trace_Vault: 400 (quick) / 6000 (thorough) seeded schedules of the real Vault / authenticated / api.request / authenticator, every lock acquisition, wait, notification, selection, flush, request and answer mapped to one action of the model, the vault compared after every event] [+ a session whose close() takes time while another request retries from its backoff; reuse of invalidated credentials judged at the instant a request leaves the client] [+ timers whose own PATCH exhausts the retries: known finding F17] RetryPlan gives the exact instants of all attempts for a fault word (connection errors, timeouts, 5xx, 403, 429 with Retry-After, '
+        text='[+ expiration of credentials in Vault.tla: F37 found by TLC (NoCrash / NoLeak), replayed on the real code, repaired; the old code is the witness variant f37] [+ Vault.tla / MC_Vault: NoReuse, SingleReauth, ReauthOnlyOnRevocation, NoCrash, NoLeak, LockDiscipline for 2-3 requesters x 1-2 keys x revocations x faults x login outcomes (fresh / same / none) x both kinds of credentials, negative variant `bykey`; Trace_Vault: 400 (quick) / 6000 (thorough) seeded schedules of the real Vault / authenticated / api.request / authenticator, every lock acquisition, wait, notification, selection, flush, request and answer mapped to one action of the model, the vault compared after every event] [+ a session whose close() takes time while another request retries from its backoff; reuse of invalidated credentials judged at the instant a request leaves the client] [+ timers whose own PATCH exhausts the retries: known finding F17] RetryPlan gives the exact instants of all attempts for a fault word (connection errors, timeouts, 5xx, 403, 429 with Retry-After, '
              'other 4xx) under a backoff list and enforce_retry_after; TLC checks its laws for 37 448 cases and then judges the real '
              'api.request on ~900 (quick) / all (thorough) words: attempt instants must be equal. Throttling: per-object delays grow per '
              'consecutive error, reset by success, other objects are processed at their arrival instants, the operator stays alive and '
